@@ -164,8 +164,14 @@ def r9_quote_removal(ctx):
     same quote character, and only when that makes the texts match"""
     rep = ctx.rep
     f = ctx.func(NORM)
-    helpers = [h for h in ctx.prog.funcs.values() if h.parent is f and any(isinstance(x, ast.Subscript) and isinstance(x.slice, ast.Slice) for x in ast.walk(h.node))
-               and '_check_match' in ast.unparse(h.node)]
+    called = set()
+    for c in walk_scope(f.node):
+        if isinstance(c, ast.Call):
+            r = ctx.res.resolve_call(f, c)
+            if r[0] == 'repo':
+                called |= {x.qualname for x in r[1]}
+    helpers = [h for h in ctx.prog.funcs.values() if (h.parent is f or (h.qualname in called and h.module is f.module and h.qualname != CM)) and
+               any(isinstance(x, ast.Subscript) and isinstance(x.slice, ast.Slice) for x in ast.walk(h.node)) and '_check_match' in ast.unparse(h.node)]
     need(len(helpers) == 1, 'C05.R9: the quote-removal helper inside normalize() was not recognised')
     h = helpers[0]
     g = ctx.cfg(h)
@@ -301,18 +307,18 @@ def classify_steps(ctx, f, depth=0):
                 out.append(Step('blankline', c, c.args[0], f))
                 continue
             callee = r[1][0]
-            if callee.parent is f or (f.parent is not None and callee.parent is f.parent):
+            if callee.parent is f or (f.parent is not None and callee.parent is f.parent) or (callee.parent is None and callee.cls is None and callee.module is f.module and callee.qualname not in (CO, CM, NORM, 'xdoctest.checker._ellipsis_match', 'xdoctest.checker.check_got_vs_want', 'xdoctest.checker.check_exception')):
                 # nested helpers, classified by what their body does
                 body_txt = ast.unparse(callee.node)
                 has_sub = any(isinstance(x, ast.Call) and isinstance(x.func, ast.Attribute) and x.func.attr == 'sub' for x in ast.walk(callee.node))
-                if has_sub and len(c.args) == 2 and len(callee.node.args.args) == 2 and len(callee.node.body) <= 2:
+                if has_sub and len(c.args) == 2 and len(callee.node.args.args) == 2 and len([b_ for b_ in callee.node.body if not (isinstance(b_, ast.Expr) and isinstance(b_.value, ast.Constant))]) <= 2:
                     for role in _regex_roles(ctx, f, c.args[0]):
                         out.append(Step(role, c, c.args[1], f))
                     continue
                 if "endswith('\\r')" in body_txt and len(callee.node.args.args) == 1:
                     out.append(Step('cr_lines', c, c.args[0], f))
                     continue
-                if '_check_match' in body_txt and len(c.args) == 2:
+                if '_check_match' in body_txt and len(c.args) in (2, 3):
                     out.append(Step('norm_repr', c, c.args[0], f))
                     continue
                 # a helper that applies further steps to its single text parameter: inline once
@@ -345,6 +351,20 @@ def classify_steps(ctx, f, depth=0):
         if isinstance(fn, ast.Attribute) and fn.attr == 'sub' and is_name(fn.value, 'TRAILING_WS') and len(c.args) >= 2:
             out.append(Step('trailing_ws', c, c.args[1], f))
             continue
+        if isinstance(fn, ast.Attribute) and fn.attr == 'sub' and isinstance(fn.value, ast.Name) and len(c.args) >= 2 and fn.value.id in mod.assigns:
+            cv = mod.assigns[fn.value.id]
+            if isinstance(cv, ast.Call) and ast.unparse(cv.func) == 're.compile' and cv.args:
+                try:
+                    pv = fold.fold(mod, cv.args[0], None, None)
+                except consts.NotConstant:
+                    pv = None
+                if isinstance(pv, str):
+                    rx = consts.Regex(pv, 0)
+                    if len(rx.items) == 1:
+                        cs = consts.item_charset(rx.items[0])
+                        if cs is not None and {32, 9, 10} <= cs and ord('a') not in cs and isinstance(c.args[0], ast.Constant) and c.args[0].value == '':
+                            out.append(Step('ws_delete', c, c.args[1], f))
+                            continue
         if isinstance(fn, ast.Attribute) and fn.attr == 'rstrip' and not c.args:
             out.append(Step('rstrip', c, fn.value, f))
             continue
@@ -606,22 +626,37 @@ def r4_regex_facts(ctx):
                'string-prefix pattern lost part of its shape (%s): letters inside words would be deleted' % why, anchor='xdoctest.checker.' + name)
     # replacement keeps groups 1 and 2
     f = ctx.func(NORM)
-    subs = [c for c in ast.walk(f.node) if isinstance(c, ast.Call) and isinstance(c.func, ast.Attribute) and c.func.attr == 'sub' and len(c.args) >= 2
+    scopes = [f]
+    for c in walk_scope(f.node):
+        if isinstance(c, ast.Call):
+            r = ctx.res.resolve_call(f, c)
+            if r[0] == 'repo':
+                scopes += [x for x in r[1] if x.module is f.module and x not in scopes and x.qualname not in (CO, CM)]
+    subs = [(sc, c) for sc in scopes for c in ast.walk(sc.node) if isinstance(c, ast.Call) and isinstance(c.func, ast.Attribute) and c.func.attr == 'sub' and len(c.args) >= 2
             and isinstance(c.args[1], ast.Constant) and isinstance(c.args[1].value, str) and '\\' in c.args[1].value]
-    for c in subs:
+    seen_sub = set()
+    subs = [(sc, c) for (sc, c) in subs if id(c) not in seen_sub and not seen_sub.add(id(c))]
+    for (sc, c) in subs:
+        f_ = sc
         ok = c.args[1].value == '\\1\\2'
-        rep.ob('C05.R4', ctx.loc(f, c), ctx.src(c), ok, 'replacement keeps the boundary character and the quote' if ok else
+        rep.ob('C05.R4', ctx.loc(f_, c), ctx.src(c), ok, 'replacement keeps the boundary character and the quote' if ok else
                'replacement %r drops a captured group' % c.args[1].value, nontrivial=False, anchor=NORM)
     rep.floor('C05.R4', 'group-preserving substitutions', len(subs), 1)
     # strip_ansi
     fs = ctx.func('xdoctest.utils.util_str.strip_ansi')
     pats = []
-    for c in ast.walk(fs.node):
-        if isinstance(c, ast.Call) and ast.unparse(c.func) == 're.compile':
-            try:
-                pats.append((c, fold.fold(fs.module, c, None, fs)))
-            except consts.NotConstant:
-                pass
+    cands = [c for c in ast.walk(fs.node) if isinstance(c, ast.Call) and ast.unparse(c.func) == 're.compile']
+    # a pattern compiled once at module level and used here
+    for x in ast.walk(fs.node):
+        if isinstance(x, ast.Name) and isinstance(x.ctx, ast.Load) and x.id in fs.module.assigns:
+            cv = fs.module.assigns[x.id]
+            if isinstance(cv, ast.Call) and ast.unparse(cv.func) == 're.compile' and cv not in cands:
+                cands.append(cv)
+    for c in cands:
+        try:
+            pats.append((c, fold.fold(fs.module, c, None, fs)))
+        except consts.NotConstant:
+            pass
     need(pats, 'C05.R4: strip_ansi pattern not foldable')
     for (c, rx) in pats:
         ok = False
